@@ -197,6 +197,11 @@ func (g *Gateway) handleLegacyProtocol(w http.ResponseWriter, r *http.Request, t
 
 		c.Set(t.RDGId, t, cache.DefaultExpiration)
 	} else if r.Method == MethodRDGIN {
+		if t.transportOut == nil {
+			log.Printf("RDG_IN_DATA for session %s without an established RDG_OUT_DATA channel", t.RDGId)
+			http.Error(w, "no outgoing channel for this connection id", http.StatusBadRequest)
+			return
+		}
 		legacyConnections.Inc()
 		defer legacyConnections.Dec()
 
